@@ -1,4 +1,311 @@
 import TbotVerif.Spec.Own
+/-! C07 — the `_c`-slot model refines the ownership reference automaton for every history. -/
+
 namespace C07
-theorem placeholder : True := trivial
+open Own Spec.C07
+
+def statusOf : Slot → Status
+  | .io => .access | .borrowed => .lent | .taken => .taken
+
+/-- simulation relation between the slot model and the reference automaton -/
+structure Rel (s : St) (r : Ref) : Prop where
+  status : r.status = s.handles.map fun x => statusOf x.slot
+  cfgs : r.cfgs = s.handles.map (·.cfg)
+  frames : r.frames = s.frames.map fun f => (f.1, statusOf f.2)
+  closed : r.closed = s.ioClosed
+  calls : r.closeCalls = s.closeCalls
+
+theorem rel_init : Rel {} {} := by constructor <;> rfl
+
+theorem status_get {s : St} {r : Ref} (h : Rel s r) (i : Nat) :
+    r.status[i]? = (s.handles[i]?).map fun x => statusOf x.slot := by
+  rw [h.status, List.getElem?_map]
+
+theorem cfg_get {s : St} {r : Ref} (h : Rel s r) (i : Nat) :
+    r.cfgs[i]? = (s.handles[i]?).map (·.cfg) := by
+  rw [h.cfgs, List.getElem?_map]
+
+theorem len_eq {s : St} {r : Ref} (h : Rel s r) : r.status.length = s.handles.length := by
+  rw [h.status, List.length_map]
+
+theorem map_setSlot (hs : List Handle) (i : Nat) (sl : Slot) (x : Handle) (hx : hs[i]? = some x) :
+    (setSlot hs i sl).map (fun y => statusOf y.slot) = setAt (hs.map fun y => statusOf y.slot) i (statusOf sl) := by
+  unfold setSlot setAt
+  rw [hx]
+  simp [List.map_set]
+
+theorem map_setSlot_cfg (hs : List Handle) (i : Nat) (sl : Slot) :
+    (setSlot hs i sl).map (·.cfg) = hs.map (·.cfg) := by
+  unfold setSlot
+  cases hx : hs[i]? with
+  | none => rfl
+  | some x =>
+    simp only [List.map_set]
+    apply List.ext_getElem?
+    intro j
+    rw [List.getElem?_set]
+    split
+    · rename_i hij; subst hij
+      split
+      · simp [List.getElem?_map, hx]
+      · rename_i hlt
+        simp only [List.length_map] at hlt
+        have : hs[i]? = none := by simp [List.getElem?_eq_none_iff]; omega
+        rw [this] at hx; simp at hx
+    · rfl
+
+theorem setSlot_length (hs : List Handle) (i : Nat) (sl : Slot) : (setSlot hs i sl).length = hs.length := by
+  unfold setSlot; split <;> simp
+
+theorem setSlot_none (hs : List Handle) (i : Nat) (sl : Slot) (hx : hs[i]? = none) : setSlot hs i sl = hs := by
+  unfold setSlot; rw [hx]
+
+theorem map_setCfg_status (hs : List Handle) (i : Nat) (f : HCfg → HCfg) :
+    (setCfg hs i f).map (fun y => statusOf y.slot) = hs.map fun y => statusOf y.slot := by
+  unfold setCfg
+  cases hx : hs[i]? with
+  | none => rfl
+  | some x =>
+    simp only [List.map_set]
+    apply List.ext_getElem?
+    intro j
+    rw [List.getElem?_set]
+    split
+    · rename_i hij; subst hij
+      split
+      · simp [List.getElem?_map, hx]
+      · rename_i hlt
+        simp only [List.length_map] at hlt
+        have : hs[i]? = none := by simp [List.getElem?_eq_none_iff]; omega
+        rw [this] at hx; simp at hx
+    · rfl
+
+theorem map_setCfg_cfg (hs : List Handle) (i : Nat) (f : HCfg → HCfg) (x : Handle) (hx : hs[i]? = some x) :
+    (setCfg hs i f).map (·.cfg) = setAt (hs.map (·.cfg)) i (f x.cfg) := by
+  unfold setCfg setAt
+  rw [hx]
+  simp [List.map_set]
+
+/-- one step: the reference automaton accepts what the slot model does, and the relation is kept -/
+theorem step_ok (s : St) (r : Ref) (op : Op) (h : Rel s r) :
+    let o : Obs := { res := (step s op).1, ioClosed := (step s op).2.ioClosed, closeCalls := (step s op).2.closeCalls }
+    lenient r op o = none ∧
+    ((expect r op = none ∧ (step s op).1 = .badop ∧ (step s op).2 = s) ∨
+     ∃ r', expect r op = some ((step s op).1, r') ∧ Rel (step s op).2 r') := by
+  intro o
+  have hst := status_get h
+  have hcf := cfg_get h
+  cases op with
+  | io i =>
+    refine ⟨rfl, ?_⟩
+    cases hx : s.handles[i]? with
+    | none => left; simp [step, expect, hst, hx]
+    | some x =>
+      right
+      obtain ⟨sl, c⟩ := x
+      refine ⟨r, ?_, ?_⟩
+      · cases sl <;> simp [step, expect, hst, hx, statusOf]
+      · cases sl <;> simpa [step, hx] using h
+  | closed i =>
+    refine ⟨rfl, ?_⟩
+    cases hx : s.handles[i]? with
+    | none => left; simp [step, expect, hst, hx]
+    | some x =>
+      right
+      obtain ⟨sl, c⟩ := x
+      refine ⟨r, ?_, ?_⟩
+      · cases sl <;> simp [step, expect, hst, hx, statusOf, h.closed]
+      · cases sl <;> simpa [step, hx] using h
+  | close i =>
+    refine ⟨rfl, ?_⟩
+    cases hx : s.handles[i]? with
+    | none => left; simp [step, expect, hst, hx]
+    | some x =>
+      right
+      obtain ⟨sl, c⟩ := x
+      cases sl
+      · refine ⟨{ r with closed := true, closeCalls := r.closeCalls + 1 }, by simp [step, expect, hst, hx, statusOf], ?_⟩
+        simp only [step, hx]
+        exact { status := h.status, cfgs := h.cfgs, frames := h.frames, closed := rfl,
+                calls := by simp [h.calls] }
+      · exact ⟨r, by simp [step, expect, hst, hx, statusOf], by simpa [step, hx] using h⟩
+      · exact ⟨r, by simp [step, expect, hst, hx, statusOf], by simpa [step, hx] using h⟩
+  | exit i =>
+    refine ⟨rfl, ?_⟩
+    cases hx : s.handles[i]? with
+    | none => left; simp [step, expect, hst, hx]
+    | some x =>
+      right
+      obtain ⟨sl, c⟩ := x
+      cases sl
+      · cases hcl : s.ioClosed
+        · refine ⟨{ r with closed := true, closeCalls := r.closeCalls + 1 },
+            by simp [step, expect, hst, hx, statusOf, h.closed, hcl], ?_⟩
+          simp only [step, hx, hcl]
+          exact { status := h.status, cfgs := h.cfgs, frames := h.frames, closed := rfl,
+                  calls := by simp [h.calls] }
+        · exact ⟨r, by simp [step, expect, hst, hx, statusOf, h.closed, hcl], by simpa [step, hx, hcl] using h⟩
+      · exact ⟨r, by simp [step, expect, hst, hx, statusOf], by simpa [step, hx] using h⟩
+      · exact ⟨r, by simp [step, expect, hst, hx, statusOf], by simpa [step, hx] using h⟩
+  | borrowEnter i =>
+    cases hx : s.handles[i]? with
+    | none =>
+      refine ⟨?_, Or.inl ?_⟩
+      · simp [lenient, o, step, hx]
+      · simp [step, expect, hst, hx]
+    | some x =>
+      obtain ⟨sl, c⟩ := x
+      cases sl
+      · -- io: a new handle is created
+        refine ⟨?_, Or.inr ?_⟩
+        · simp [lenient, o, step, hx, hst, statusOf]
+        · simp only [step, expect, hst, hcf, hx, Option.map_some]
+          refine ⟨{ r with status := setAt r.status i .lent ++ [.access], cfgs := r.cfgs ++ [c],
+                           frames := (i, .access) :: r.frames }, ?_, ?_⟩
+          · rw [setSlot_length, len_eq h]; rfl
+          · exact {
+              status := by
+                simp only [List.map_append, List.map_cons, List.map_nil]
+                rw [map_setSlot _ _ _ _ hx, h.status]; rfl
+              cfgs := by
+                simp only [List.map_append, List.map_cons, List.map_nil]
+                rw [map_setSlot_cfg, h.cfgs]
+              frames := by simp [h.frames, statusOf]
+              closed := h.closed, calls := h.calls }
+      · refine ⟨?_, Or.inr ⟨r, ?_, ?_⟩⟩
+        · simp [lenient, o, step, hx]
+        · simp [step, expect, hst, hx, statusOf]
+        · simpa [step, hx] using h
+      · refine ⟨?_, Or.inr ⟨r, ?_, ?_⟩⟩
+        · simp [lenient, o, step, hx]
+        · simp [step, expect, hst, hx, statusOf]
+        · simpa [step, hx] using h
+  | borrowExit =>
+    refine ⟨rfl, ?_⟩
+    cases hf : s.frames with
+    | nil =>
+      left
+      simp [step, expect, h.frames, hf]
+    | cons f fs =>
+      right
+      obtain ⟨i, saved⟩ := f
+      simp only [step, expect, h.frames, hf, List.map_cons]
+      refine ⟨_, rfl, ?_⟩
+      cases hx : s.handles[i]? with
+      | none =>
+        exact {
+          status := by
+            rw [setSlot_none _ _ _ hx]
+            simp only [setAt]
+            rw [h.status]
+            rw [List.set_eq_of_length_le]
+            simp only [List.length_map]
+            exact (List.getElem?_eq_none_iff.mp hx)
+          cfgs := by rw [setSlot_none _ _ _ hx]; exact h.cfgs
+          frames := rfl, closed := h.closed, calls := h.calls }
+      | some x =>
+        exact {
+          status := by rw [map_setSlot _ _ _ x hx, h.status]
+          cfgs := by rw [map_setSlot_cfg]; exact h.cfgs
+          frames := rfl, closed := h.closed, calls := h.calls }
+  | take i =>
+    cases hx : s.handles[i]? with
+    | none =>
+      refine ⟨?_, Or.inl ?_⟩
+      · simp [lenient, o, step, hx]
+      · simp [step, expect, hst, hx]
+    | some x =>
+      obtain ⟨sl, c⟩ := x
+      cases sl
+      · -- io: a new handle is created
+        refine ⟨?_, Or.inr ?_⟩
+        · simp [lenient, o, step, hx, hst, statusOf]
+        · simp only [step, expect, hst, hcf, hx, Option.map_some]
+          refine ⟨{ r with status := setAt r.status i .taken ++ [.access], cfgs := r.cfgs ++ [c] }, ?_, ?_⟩
+          · rw [setSlot_length, len_eq h]; rfl
+          · exact {
+              status := by
+                simp only [List.map_append, List.map_cons, List.map_nil]
+                rw [map_setSlot _ _ _ _ hx, h.status]; rfl
+              cfgs := by
+                simp only [List.map_append, List.map_cons, List.map_nil]
+                rw [map_setSlot_cfg, h.cfgs]
+              frames := h.frames
+              closed := h.closed, calls := h.calls }
+      · refine ⟨?_, Or.inr ⟨r, ?_, ?_⟩⟩
+        · simp [lenient, o, step, hx]
+        · simp [step, expect, hst, hx, statusOf]
+        · simpa [step, hx] using h
+      · refine ⟨?_, Or.inr ⟨r, ?_, ?_⟩⟩
+        · simp [lenient, o, step, hx]
+        · simp [step, expect, hst, hx, statusOf]
+        · simpa [step, hx] using h
+  | setPrompt i p => exact cfgStep s r h i _ (.setPrompt i p) rfl rfl (fun _ => rfl)
+  | setBlacklist i b => exact cfgStep s r h i _ (.setBlacklist i b) rfl rfl (fun _ => rfl)
+  | addDeath i d e => exact cfgStep s r h i _ (.addDeath i d e) rfl rfl (fun _ => rfl)
+  | setSlow i d k => exact cfgStep s r h i _ (.setSlow i d k) rfl rfl (fun _ => rfl)
+  | getCfg i =>
+    refine ⟨rfl, ?_⟩
+    simp only [step, expect, hcf]
+    cases hx : s.handles[i]? with
+    | none => left; simp
+    | some x => right; exact ⟨r, by simp, h⟩
+where
+  cfgStep (s : St) (r : Ref) (h : Rel s r) (i : Nat) (f : HCfg → HCfg) (op : Op)
+      (hstep : step s op = if i < s.handles.length then (.ok, { s with handles := setCfg s.handles i f }) else (.badop, s))
+      (hexp : expect r op = (r.cfgs[i]?).map fun c => (.ok, { r with cfgs := setAt r.cfgs i (f c) }))
+      (hlen : ∀ o, lenient r op o = none) :
+      let o : Obs := { res := (step s op).1, ioClosed := (step s op).2.ioClosed, closeCalls := (step s op).2.closeCalls }
+      lenient r op o = none ∧
+      ((expect r op = none ∧ (step s op).1 = .badop ∧ (step s op).2 = s) ∨
+       ∃ r', expect r op = some ((step s op).1, r') ∧ Rel (step s op).2 r') := by
+    intro o
+    refine ⟨hlen o, ?_⟩
+    rw [hstep, hexp, cfg_get h]
+    cases hx : s.handles[i]? with
+    | none =>
+      left
+      have : ¬ i < s.handles.length := by
+        have := List.getElem?_eq_none_iff.mp hx; omega
+      simp [this]
+    | some x =>
+      right
+      have hlt : i < s.handles.length := by
+        rcases Nat.lt_or_ge i s.handles.length with hl | hl
+        · exact hl
+        · have := List.getElem?_eq_none_iff.mpr hl; rw [this] at hx; simp at hx
+      simp only [hlt, if_true, Option.map_some]
+      refine ⟨_, rfl, ?_⟩
+      exact {
+        status := by rw [map_setCfg_status]; exact h.status
+        cfgs := by rw [map_setCfg_cfg _ _ _ x hx, h.cfgs]
+        frames := h.frames, closed := h.closed, calls := h.calls }
+
+/-- **C07.**  For every history of calls on any handles, what the slot-swapping model shows is
+    exactly what the ownership property demands. -/
+theorem run_refines : ∀ (ops : List Op) (s : St) (r : Ref), Rel s r → check r ops (run s ops) = true := by
+  intro ops
+  induction ops with
+  | nil => intro s r _; rfl
+  | cons op ops ih =>
+    intro s r h
+    obtain ⟨hlen, hstep⟩ := step_ok s r op h
+    simp only [run, check]
+    rw [hlen]
+    rcases hstep with ⟨he, hb, hs⟩ | ⟨r', he, hr⟩
+    · simp only [he, hb]
+      rw [hs]
+      simpa using ih s r h
+    · simp only [he]
+      have := ih _ r' hr
+      simp [this, hr.closed, hr.calls]
+
+theorem c07 (ops : List Op) : Spec.C07 ops (run {} ops) = true :=
+  run_refines ops {} {} rel_init
+
+/-- non-vacuity: a history with a nested borrow, a take inside it, calls on stale handles -/
+example : Spec.C07 [.borrowEnter 0, .io 0, .take 1, .io 1, .io 2, .borrowExit, .io 0, .closed 1, .close 1, .close 2]
+    (run {} [.borrowEnter 0, .io 0, .take 1, .io 1, .io 2, .borrowExit, .io 0, .closed 1, .close 1, .close 2]) = true := by
+  decide
+
 end C07
